@@ -53,6 +53,8 @@ def corpus(name):
     raise KeyError(name)
 
 
+TRACES2 = ('((S (WHNP-1 (WP who)) (NP-SBJ-2 (NN dogs)) (VP (VB bark) (NP (-NONE- *T*-1)) (NP (-NONE- *-2)))))\n'
+           '((S (NP-3 (NN cats)) (WHADVP-4 (WRB when)) (VP (VB sleep) (NP (-NONE- *-3)) (ADVP (-NONE- *T*-4)))))\n')
 TRACES = '((S (NP-SBJ-1 (NN dogs)) (VP (VB bark) (NP (-NONE- *T*-1)))))\n((S (WHNP-2 (WP who)) (S (NP (-NONE- *T*-2)) (VP (VB left)))))\n'
 TERMFILES = {
     'F1': ('terms_one.txt', '1 2 neu XY\n2 1 vorn XY\n'),
@@ -92,6 +94,8 @@ def _ops():
                                                                  '--params', 'terminalfile:{terms}', 'quiet'])),
         ('traces', dict(src=('TRACES', 'brackets'), argv=['transform', '{src}', '{dest}', '--src-format', 'brackets', '--dest-format',
                                                          'brackets', '--trans', 'ptb_delete_traces'])),
+        ('traces_slash', dict(src=('TRACES2', 'brackets'), argv=['transform', '{src}', '{dest}', '--src-format', 'brackets', '--dest-format',
+                                                                'brackets', '--trans', 'ptb_delete_traces', '--params', 'keepall', 'slash'])),
         ('boyd', dict(src=('E', 'export'), argv=['transform', '{src}', '{dest}', '--trans'] + T + ['--dest-opts', 'boyd_split_marking'])),
         ('punct_bin', dict(src=('C', 'brackets'), argv=['transform', '{src}', '{dest}', '--src-format', 'brackets', '--dest-format', 'export',
                                                         '--trans', 'punctuation_root', 'negra_mark_heads', 'binarize',
@@ -141,7 +145,7 @@ def run_op(name, cli, workdir):
     cname, fmt = op['src']
     src = os.path.join(d, 'src.' + fmt)
     with open(src, 'w', encoding='utf-8') as f:
-        f.write(TRACES if cname == 'TRACES' else text_of(cname, fmt))
+        f.write(TRACES if cname == 'TRACES' else TRACES2 if cname == 'TRACES2' else text_of(cname, fmt))
     dest = os.path.join(d, 'dest')
     terms = ''
     if 'terms' in op:
@@ -415,8 +419,12 @@ CONCAT_OPS = [
 
 def concat_pool():
     shs = [(1, 2), ((1, 3), 2), ((1, 2), (3, 4)), (((1, 4), 2), 3), ((1,), 2, 3), ((1, 3, 5), 2, 4)]
+    wide_a = model.MT(1, model.mk_tokens(5, words=['a', 'b', 'c', 'd', 'e'], pos=['A', 'B', 'C', 'D', 'E']),
+                      ('VROOT', '--', (('S', '--', (('NP', 'SB', (1, 2, 3, 4)), 5)),)))
+    wide_b = model.MT(1, model.mk_tokens(5, words=['a', 'b', 'c', 'd', 'e'], pos=['A', 'B', 'C', 'D', 'E']),
+                      ('VROOT', '--', (('VP', '--', (('NP', 'OA', (1, 2, 3, 4)), 5)),)))
     cont = [(1, 2), ((1, 2), 3), (1, (2, 3)), ((1,), 2, 3), ((1, 2), (3, 4)), (1, 2, 3)]
-    return ([[_mt(sh, 1, i)] for i, sh in enumerate(shs)] + [[_mt(shs[0], 1, 1), _mt(shs[3], 2, 2)], [None]],
+    return ([[_mt(sh, 1, i)] for i, sh in enumerate(shs)] + [[_mt(shs[0], 1, 1), _mt(shs[3], 2, 2)], [None], [wide_a], [wide_b]],
             [[_mt(sh, 1, i)] for i, sh in enumerate(cont)] + [[_mt(cont[1], 1, 1), _mt(cont[4], 2, 2)]])
 
 
